@@ -34,8 +34,9 @@ FrameChunks(f) == LET b == FrameBody(f) IN FrameHeader(f, ChunksLen(b)) \o b
 \* legality of a frame for its version and direction (Appendix A of DESIGN.md)
 FrameValid(f) ==
     /\ f.dir = KindDir(f.msg.kind)
-    /\ ("P" \in f.flags => Feature(f.v, "CustomPayload") /\ Has(f.payload) /\ Get(f.payload) # <<>>)
-    /\ ("W" \in f.flags => Feature(f.v, "Warnings") /\ f.dir = "rsp" /\ Has(f.warnings) /\ Get(f.warnings) # <<>>)
+    \* (a zero-entry custom payload / warning list under a set flag is what a decoder hands back for such bytes: legal on the wire)
+    /\ ("P" \in f.flags => Feature(f.v, "CustomPayload") /\ Has(f.payload))
+    /\ ("W" \in f.flags => Feature(f.v, "Warnings") /\ f.dir = "rsp" /\ Has(f.warnings))
     /\ ("T" \in f.flags /\ f.dir = "rsp" => Has(f.tracing))
     /\ (IF Feature(f.v, "StreamId16") THEN f.stream \in -32768..32767 ELSE f.stream \in -128..127)
     /\ (f.msg.kind = "REVISE" => Feature(f.v, "Dse"))
@@ -220,8 +221,8 @@ Messages(v) ==
     \cup Events(v)
 
 \* frames: every message with plain header; every legal flag combination and stream id on one representative per kind
-PayloadMaps == {<<<<B_ks, <<B_blob>>>>>>, <<<<B_a, <<>>>>, <<B_c1, <<B_empty>>>>>>}
-WarningLists == {<<B_ks>>, <<B_utf8, B_empty>>}
+PayloadMaps == {<<<<B_ks, <<B_blob>>>>>>, <<<<B_a, <<>>>>, <<B_c1, <<B_empty>>>>>>, <<>>}
+WarningLists == {<<B_ks>>, <<B_utf8, B_empty>>, <<>>}
 BaseFrame(v, m) == [v |-> v, dir |-> KindDir(m.kind), stream |-> 1, flags |-> {}, tracing |-> <<>>, payload |-> <<>>, warnings |-> <<>>, msg |-> m]
 Representative(v, k) == CHOOSE m \in Messages(v) : m.kind = k
 KindsOf(v) == {m.kind : m \in Messages(v)}
